@@ -57,11 +57,19 @@ def worst_case(args):
         prob.h.fault_filter = lambda individual: len(individual.parents) == 0
         prob.costs = list(base_costs)
         tols = []
+        alg = None
+        if args.get('tol_after'):
+            # the tolerances are (re-)declared AFTER the algorithm and its evaluator exist (a tolerance study re-using the
+            # objects): the neighbours are displaced by the tolerance the problem declares when the batch is evaluated
+            for p in prob.parameters:
+                p['tol'] = 0.1
+            alg = _alg(prob, EvaluatorType.WORST_CASE)
         for i, p in enumerate(prob.parameters):
             t = ctx.real('tol%d' % i, 0, None)          # tolerance 0 included (neighbours coincide with the design)
             p['tol'] = t
             tols.append(t)
-        alg = _alg(prob, EvaluatorType.WORST_CASE)
+        if alg is None:
+            alg = _alg(prob, EvaluatorType.WORST_CASE)
         designs = []
         for t, maxsize in enumerate(sizes):
             size = 1 + ctx.choice('size_batch%d' % t, maxsize)      # every batch size 1..max is explored
@@ -182,6 +190,9 @@ def configs(tier):
     gr(2, 2, (1, 2))
     wc(2, 1, (2, 1), container='ndarray')
     wc(1, 1, (1, 1, 1), resubmit=True)
+    out.append({'name': 'worst-dim2-o1-2x1-tolerances-declared-after-construction', 'task': 'worst_case',
+                'args': {'dim': 2, 'o': 1, 'batches': (2, 1), 'faults': 0, 'container': None, 'resubmit': False, 'tol_after': True},
+                'weight': 6, 'engine': {'validate': 10}})
     wc(1, 1, (8,))              # size thresholds: larger batches (the evaluator's work list grows with batch size * (2n+1))
     wc(2, 1, (6, 2))
     wc(3, 2, (4,))
